@@ -303,6 +303,10 @@ where
                                     &mut shift_reduce,
                                     stidx,
                                 );
+                                if actions[off] == ERROR {
+                                    // %nonassoc resolution removes the action entirely.
+                                    state_actions.set(off, false);
+                                }
                             }
                             Action::Accept => panic!("Internal error"),
                             Action::Error => {
